@@ -35,6 +35,7 @@ def run(m):
         return {"name": m["name"], "results": res}
     finally:
         subprocess.run(["git", "-C", "/repo", "worktree", "remove", "--force", wt], capture_output=True)
+        subprocess.run(["rm", "-rf", wt, os.path.join("/tmp", "verif_alt_" + os.path.basename(wt))])
 
 
 if __name__ == "__main__":
